@@ -1,3 +1,5 @@
-import Vet.Props.Search
+import Vet.Props.Resolve
 #print axioms Vet.search_minimax
-#print axioms Vet.search_sound
+#print axioms Vet.C12_fully_only_if
+#print axioms Vet.C12_fully_if
+#print axioms Vet.C12_classes_partition
